@@ -86,6 +86,7 @@ inductive Site where
 
 inductive Res where
   | ok | none | dead | loopexit | notask | norpc | nonhook
+  | ignored     -- a KILL for a task whose terminal status is out, survived by the loop (never produced by this model)
   | resp (st : Dev) (err : Bool)
   | hresp (err : Bool)
   | crash (s : Site)
